@@ -368,13 +368,13 @@ class HTMLParser(object):
                 assert self.innerHTML
                 last = True
                 nodeName = self.innerHTML
+            if not last and node.namespace != self.tree.defaultNamespace:
+                continue
+
             # Check for conditions that should only happen in the innerHTML
             # case
             if nodeName in ("select", "colgroup", "head", "html"):
                 assert self.innerHTML
-
-            if not last and node.namespace != self.tree.defaultNamespace:
-                continue
 
             if nodeName in newModes:
                 new_phase = self.phases[newModes[nodeName]]
@@ -1689,7 +1689,8 @@ class InTablePhase(Phase):
     # helper methods
     def clearStackToTableContext(self):
         # "clear the stack back to a table context"
-        while self.tree.openElements[-1].name not in ("table", "html"):
+        while (self.tree.openElements[-1].name not in ("table", "html") or
+               self.tree.openElements[-1].namespace != self.tree.defaultNamespace):
             # self.parser.parseError("unexpected-implied-end-tag-in-table",
             #  {"name":  self.tree.openElements[-1].name})
             self.tree.openElements.pop()
@@ -1697,7 +1698,8 @@ class InTablePhase(Phase):
 
     # processing methods
     def processEOF(self):
-        if self.tree.openElements[-1].name != "html":
+        if (self.tree.openElements[-1].name != "html" or
+                self.tree.openElements[-1].namespace != self.tree.defaultNamespace):
             self.parser.parseError("eof-in-table")
         else:
             assert self.parser.innerHTML
@@ -2018,8 +2020,9 @@ class InTableBodyPhase(Phase):
 
     # helper methods
     def clearStackToTableBodyContext(self):
-        while self.tree.openElements[-1].name not in ("tbody", "tfoot",
-                                                      "thead", "html"):
+        while (self.tree.openElements[-1].name not in ("tbody", "tfoot",
+                                                       "thead", "html") or
+               self.tree.openElements[-1].namespace != self.tree.defaultNamespace):
             # self.parser.parseError("unexpected-implied-end-tag-in-table",
             #  {"name": self.tree.openElements[-1].name})
             self.tree.openElements.pop()
@@ -2117,7 +2120,8 @@ class InRowPhase(Phase):
 
     # helper methods (XXX unify this with other table helper methods)
     def clearStackToTableRowContext(self):
-        while self.tree.openElements[-1].name not in ("tr", "html"):
+        while (self.tree.openElements[-1].name not in ("tr", "html") or
+               self.tree.openElements[-1].namespace != self.tree.defaultNamespace):
             self.parser.parseError("unexpected-implied-end-tag-in-table-row",
                                    {"name": self.tree.openElements[-1].name})
             self.tree.openElements.pop()
